@@ -82,10 +82,49 @@ macro_rules! imp {
     }};
 }
 
+type Run = fn(bool, &str, &[&str]) -> Option<String>;
+
+/// Digit counts that the shared `for_config!` list does not instantiate (C01 only): every residue of N modulo
+/// 4 and 8 for every digit type, and the digit counts just below / at / just above 16, 32, 64 and 128
+/// (loop unrolling tails, block-wise carry look-ahead, mask widths are keyed to such N).
+fn extra_config(c: &str) -> Option<Run> {
+    match c {
+        "8x6" => imp!(BUintD8, BIntD8, u8, 6),
+        "8x10" => imp!(BUintD8, BIntD8, u8, 10),
+        "8x11" => imp!(BUintD8, BIntD8, u8, 11),
+        "8x13" => imp!(BUintD8, BIntD8, u8, 13),
+        "8x14" => imp!(BUintD8, BIntD8, u8, 14),
+        "8x15" => imp!(BUintD8, BIntD8, u8, 15),
+        "8x31" => imp!(BUintD8, BIntD8, u8, 31),
+        "8x32" => imp!(BUintD8, BIntD8, u8, 32),
+        "8x33" => imp!(BUintD8, BIntD8, u8, 33),
+        "8x63" => imp!(BUintD8, BIntD8, u8, 63),
+        "8x65" => imp!(BUintD8, BIntD8, u8, 65),
+        "8x127" => imp!(BUintD8, BIntD8, u8, 127),
+        "8x129" => imp!(BUintD8, BIntD8, u8, 129),
+        "16x6" => imp!(BUintD16, BIntD16, u16, 6),
+        "16x7" => imp!(BUintD16, BIntD16, u16, 7),
+        "16x8" => imp!(BUintD16, BIntD16, u16, 8),
+        "16x32" => imp!(BUintD16, BIntD16, u16, 32),
+        "32x5" => imp!(BUintD32, BIntD32, u32, 5),
+        "32x7" => imp!(BUintD32, BIntD32, u32, 7),
+        "32x8" => imp!(BUintD32, BIntD32, u32, 8),
+        "32x32" => imp!(BUintD32, BIntD32, u32, 32),
+        "64x6" => imp!(BUint, BInt, u64, 6),
+        "64x7" => imp!(BUint, BInt, u64, 7),
+        "64x32" => imp!(BUint, BInt, u64, 32),
+        "64x33" => imp!(BUint, BInt, u64, 33),
+        _ => None,
+    }
+}
+
 fn main() {
     serve(|op, cfg, args| {
         let (signed, c) = split_cfg(cfg);
-        let f: Option<fn(bool, &str, &[&str]) -> Option<String>> = for_config!(c, imp);
+        let f: Option<Run> = match extra_config(c) {
+            Some(f) => Some(f),
+            None => for_config!(c, imp),
+        };
         f.and_then(|f| f(signed, op, args))
     });
 }
